@@ -402,6 +402,8 @@ def c_search(prop, tier):
                                  per_output=pike_stage(prop, tier, 1), extra_args=long_args)
     if prop in ("C02", "C03"):
         return run_search_family(prop, tier, prop, stages=[refequiv_stage(tier)], per_output=pike_stage(prop, tier), extra_args=long_args)
+    if prop == "C11":   # ~40 relations per pair: a smaller haystack budget keeps the quick tier near two minutes
+        return run_search_family(prop, tier, prop, budget_scale=0.6 if tier == "quick" else 1.0, extra_args=long_args)
     return run_search_family(prop, tier, prop, extra_args=long_args)
 
 
@@ -550,7 +552,7 @@ def c09(prop, tier):
 
 def c19(prop, tier):
     return run_search_family(prop, tier, prop, subcmd="fastpaths", with_at=True, budget_scale=0.6 if tier == "quick" else 0.7,
-                             families=["REV", "ANC", "CC", "DIG", "LIT", "G2a", "G2m", "U8", "G2u"],
+                             families=["REV", "ANC", "CC", "DIG", "LIT", "G2a", "G2m", "U8", "G2u", "TRI", "G1", "BIG"],
                              rule="TLC enumerates the families designed around the strategy selector (REV, ANC, CC, DIG, LIT) and generic shards, "
                                   "x haystacks x every start offset; patterns whose selected strategy is a special-purpose searcher are checked end to end "
                                   "through Engine.IsMatch/FindIndicesAt/FindAt/FindSubmatchAt, and every public searcher whose own applicability predicate "
@@ -575,7 +577,7 @@ def c15(prop, tier):
         p = subprocess.run([vh, "nfaexport", "-in", gen_out, "-out", nfas], capture_output=True, text=True, timeout=600)
         if p.returncode != 0:
             raise Machinery("nfaexport: " + p.stderr[-500:])
-        nsh = 6 if q else 1
+        nsh = 3 if q else 1
         shard = vlib.seed() % nsh
         chk_out = os.path.join(work, "check.out")
         scratch = tempfile.mkdtemp(prefix="vtlc_")
@@ -898,8 +900,8 @@ def c05(prop, tier):
         # quick tier are a subset of the thorough tier's
         jobs = [(fam, dict(c, Budget=60 if q else 400, LCap=2 if q else 3))
                 for fam, c in search_jobs(tier, ["CC", "REV", "G2a", "CAP", "LIT", "DIG", "ANC", "G2u", "TRI", "G1"], False, 1.0)]
-        if q:   # a third of the shard's patterns (indices i with i % 3n = s are a subset of those with i % n = s)
-            jobs = [(f, dict(c, NShards=c["NShards"] * 3)) for f, c in jobs]
+        if q:   # a third of the shard's patterns (indices i with i % 3n = s are a subset of those with i % n = s); G1 only in the thorough tier
+            jobs = [(f, dict(c, NShards=c["NShards"] * 3)) for f, c in jobs if f != "G1"]
         states = trans = 0
         agg = {"patterns": 0, "cases": 0, "calls": 0, "nontrivial": 0}
 
